@@ -76,6 +76,26 @@ claim("C08",
       "three defects found here were repaired in /repo (alias precedence, mixed comma join, subquery joins leaking into the outer scope)",
       "DESIGN.md section 4 (C08)")
 
+claim("C01",
+      "Per corpus statement x dialect the real LineageRunner runs on the symbolised parse tree with table, schema, alias, derived-alias "
+      "and CTE names FREE and its source/target tables are compared with a reference semantics (SQL scoping on a typed AST) evaluated "
+      "on the same symbolic names; z3 decides per feasible path (an equivalence class of namings) that they are equal, so statement-local "
+      "names never surface as tables unless they coincide with one, CTE shadowing included. Bounded-exhaustive over kind x 21 FROM shapes "
+      "x query forms x nesting <=2 (thorough: seeded depth 4, 3-char and mixed lengths, 6 more dialects). Witnesses replayed on the "
+      "unmodified library (three-way: real / lifted / oracle).",
+      TRUST + "; parser boundary stubbed; shapes outside the generator grammar are not seen; the oracle is a second implementation "
+      "(validated: it agrees with the real library on every template with pairwise-distinct names). Two shape defects found here "
+      "were repaired in /repo (mixed comma join; scalar subquery in select list / HAVING).",
+      "DESIGN.md section 3 and 4 (C01)")
+claim("C02",
+      "Same harness as C01 comparing (source column -> target column) pairs with the oracle's dataflow, in two families: table-ish names "
+      "free (qualifier/alias/scope resolution under coincidences) and column names + column aliases free (naming by list/alias/own name, "
+      "resolution through derived tables and CTEs by name, positional mapping through set operations, 16 expression forms). "
+      "Bounded as C01; <=5/7 free names per instance.",
+      TRUST + "; three open findings reported as KNOWN-FINDING (cross-scope alias capture, literal in first UNION branch, one-node paths "
+      "of CREATE TABLE); un-aliased expression display names are not compared; self-insert assumed away for pairs",
+      "DESIGN.md section 3 and 4 (C02)")
+
 ALL = ["C%02d" % i for i in range(1, 19)]
 
 
